@@ -94,7 +94,8 @@ PROP = dict(
          "weights (fractions of the integer ones): no replay, only the weight-independent clauses are checked on its output; distinct = distinct (graph, weights, "
          "partition, pool, cap, recorded schedule); non-trivial = at least two workers and at least one vertex moved",
     class_names={0: "Ok, no move", 1: "Ok, moved", 2: "panic", 3: "hang", 4: "outside the contract", 5: "error",
-                 6: "f64 weights (outputs only), no move", 7: "f64 weights (outputs only), moved"},
+                 6: "f64 weights (outputs only), no move", 7: "f64 weights (outputs only), moved",
+                 8: "f64 exact-sum weights (replayed), no move", 9: "f64 exact-sum weights (replayed), moved"},
     harness_timeout=2400,
     trusted_base=[
         "axioms: none for the machine theorems (mutex, gain exactness, accounting, caps under hr_ok, no panic, termination, "
